@@ -1776,9 +1776,9 @@ impl<'arena> PrettyFormatter<'arena> {
             .manifest_parameter_view(parameter.binder)
             .map(|view| self.manifest_parameter(view, parameter.binder))
             .unwrap_or_else(|| match self.arena.pats[&parameter.binder] {
-                | Pattern::Ann(_) | Pattern::Manifest(_) | Pattern::Paren(_) => {
-                    self.pattern(parameter.binder)
-                }
+                // A group written inside the parameter's own delimiters (`exists ((x)) . T`) is an
+                // ordinary pattern: the delimiters below still have to be printed around it.
+                | Pattern::Ann(_) | Pattern::Manifest(_) => self.pattern(parameter.binder),
                 | _ => self.delimited(
                     None,
                     "(",
